@@ -193,7 +193,7 @@ META = {
     "C20": dict(
         text=("Lean 4 theorems about a typed ownership graph of a stopped des simulation (Runtime/Sim, Profiler, Globals, ModuleTree, ctx/processor/state/PE, async ext, tokio rt, task cell/state, mpsc, driver, TimerQueue/Slot, gates with connection slots, channels, probes, buffer entries, messages, bodies, queued/event connections, event entries in FES / Profiler.remaining / BUF_CTX) "
               "with reference-count drop semantics and the destructors ModuleContext::drop=>dissolve_paths and TimerSlotEntryHandle::drop: no node is freed twice (any graph), dissolve_paths terminates on any wiring incl. rings with fuel #conn+1, dropping never errs within #roots+#edges steps, "
-              "the strong edges not cut by dissolve_paths are ranked for every description of the repaired code, hence every module state, PE, task state, body and probe is freed exactly once. Tied to the code by generated real simulations x stopping points with destructor counters."),
+              "the strong edges not cut by dissolve_paths are ranked for every description of the repaired code, hence every module state, PE, task state, body and probe is freed exactly once. Tied to the code by generated real simulations x stopping points with destructor counters; a second and a third simulation in the same process must reproduce the fresh-process trace including build-time clock readings."),
         design_ref="DESIGN.md §5 C20",
         note=("Partial: the tie observes counters / queue lengths / event counts only, not the reference graph; tokio drops task futures with the runtime (assumption); order-independence of plain decrements "
               "(dissolve releases deferred in the model - plain_frees_below_gates proves no destructor below a gate removes handles). all_user_objects_freed_once holds for EVERY description of the repaired code "
